@@ -217,6 +217,10 @@ func (t TypeMap) Index() FieldType {
 }
 
 func (t TypeMap) Operators() []string {
+	if _, ok := t.underlyingType.(TypeString); !ok {
+		// $exists tests a key of a string map (metadata); numeric maps (balance) have no SQL form for it
+		return append(t.underlyingType.Operators(), OperatorMatch)
+	}
 	return append(t.underlyingType.Operators(), OperatorMatch, OperatorExists)
 }
 
